@@ -54,6 +54,9 @@ TRUE = ("const", "bool", True)
 FALSE = ("const", "bool", False)
 
 
+TRACKED_READS = {"_underlying"}       # fields whose reads are logged with their position in the event order (Interp.reads)
+
+
 def const(v) -> Term:
     return ("const", type(v).__name__, v)
 
@@ -162,6 +165,7 @@ class Interp:
         self._stack: List[str] = []
         self._mtab: Dict[Tuple[str, str], Optional[Term]] = {}
         self._unroll: List[int] = []
+        self.reads: List[Event] = []
         self.notes: List[str] = []
         self.top = Frame(func, None, func.qualname)
         self._bind_params(self.top, func.node, args or {}, None)
@@ -740,7 +744,13 @@ class Interp:
         if isinstance(n, ast.Name):
             return self.lookup(n.id, frame)
         if isinstance(n, ast.Attribute):
-            return ("attr", self.eval(n.value, frame, st), n.attr)
+            t = ("attr", self.eval(n.value, frame, st), n.attr)
+            if n.attr in TRACKED_READS:
+                # WHEN a replaceable field was read: the term object made here keeps its identity through copy propagation, so a
+                # rule can tell a value read before a replacement of the field from one read after it
+                self._seq += 1
+                self.reads.append(Event(self._seq, "read", t, None, st.conds, st.loops, n, frame.qual, self._call_depth))
+            return t
         if isinstance(n, ast.Subscript):
             base = self.eval(n.value, frame, st)
             idx = self.eval_slice(n.slice, frame, st)
